@@ -71,3 +71,17 @@ Definition case_agrees (c : case04) : bool :=
      | None => false
      end) objs &&
   all2 (all2 Nat.eqb) (reg _ _ s) regs && Nat.eqb (depth _ _ s) d.
+
+(* the same comparison without the registration lists and the depth: the values read during the program and the final tag,
+   protection flag and data of every object - what the property speaks about (the bookkeeping is a means) *)
+Definition case_values_agree (c : case04) : bool :=
+  let '(n, p, raised, reads, objs, regs, d) := c in
+  let '(s, r, o) := xexec n p fresh_mst in
+  Bool.eqb r raised &&
+  all2 (fun a b => Nat.eqb (fst a) (fst b) && x_eqb n (snd a) (snd b)) o reads &&
+  forallb (fun e => let '(i, t, pr, x) := e in
+     match heap _ _ s i with
+     | Some ob => Nat.eqb (tag _ ob) t && Bool.eqb (prot _ ob) pr && x_eqb n (Some (dat _ ob)) x
+     | None => false
+     end) objs.
+
